@@ -85,6 +85,13 @@ def _case(draw):
         for _ in range(draw(st.integers(0, 2))):
             x1, x2 = draw(st.sampled_from(ices)), draw(st.sampled_from(ices + ["H", "H2"]))
             case["reactions"].append({"code": draw(st.sampled_from([13, 14])), "x": x1, "x2": x2, "a": draw(st.sampled_from([0.0, 350.0, 1000.0, 2500.0]))})
+    elif model == "rr07x" and draw(st.integers(0, 2)) == 0:
+        # the dust model is independent of the input format: Leeds-format accretion (7) and thermal desorption (8)
+        # lines under rr07x (the Leeds class has its own dust temperature, Tdust)
+        case["fmt"] = "leeds"
+        for x in ices:
+            for code in draw(st.lists(st.sampled_from([7, 8]), min_size=1, max_size=2, unique=True)):
+                case["reactions"].append({"code": code, "x": x, "a": draw(st.sampled_from([1.0, 0.5, 0.3]))})
     else:
         for x in ices:
             kinds = draw(st.lists(st.sampled_from(["FREEZE", "DESOH2", "DESCR", "DEUVCR"] + (["THERM"] if model == "rr07x" else [])), min_size=1, max_size=5, unique=True))
@@ -92,7 +99,7 @@ def _case(draw):
                 case["reactions"].append({"code": k, "x": x, "a": draw(st.sampled_from([1.0, 0.5, 0.3]))})
         if draw(st.booleans()):
             case["reactions"].append({"code": "FREEZE", "x": draw(st.sampled_from(["H+", "C+", "HCO+", "E-"])), "a": draw(st.sampled_from([1.0, 0.5]))})
-    if draw(st.integers(0, 9)) == 0:
+    if draw(st.integers(0, 9)) == 0 and case.get("fmt") != "leeds":
         # a process the model does not implement: must be refused
         case["unimplemented"] = True
         if model == "rr07":
@@ -114,8 +121,28 @@ def _case(draw):
     return case
 
 
+@st.composite
+def _explicit_case(draw):
+    """API route: Species objects that carry their *own* binding energy / yield (property setters) are handed to Reaction."""
+    model = draw(st.sampled_from(["hh93", "rr07x"]))
+    ices = draw(st.lists(st.sampled_from(ICE), min_size=1, max_size=3, unique=True))
+    # (hh93's cosmic-ray / photo-desorption need symbols only the Leeds reaction class registers: not reachable through the API)
+    types = {"hh93": [201], "rr07x": [201, 210]}[model]
+    reacs = []
+    for x in ices:
+        for t in draw(st.lists(st.sampled_from(types), min_size=1, max_size=3, unique=True)):
+            reacs.append({"t": t, "x": x})
+    if model == "hh93" and draw(st.booleans()):
+        reacs.append({"t": 300, "x": ices[0], "x2": draw(st.sampled_from(ices + ["H"])), "a": draw(st.sampled_from([0.0, 350.0, 1000.0]))})
+    lg = lambda lo, hi: st.floats(min_value=math.log10(lo), max_value=math.log10(hi)).map(lambda e: 10.0 ** e)
+    return {"kind": "explicit", "model": model, "ices": ices, "reactions": reacs,
+            "eb": {x: draw(st.sampled_from([555.0, 1234.5, 2000.0, 7777.0])) for x in ices},
+            "yield": {x: draw(st.sampled_from([2.7e-3, 5.0e-2])) for x in ices if draw(st.booleans())},
+            "Tgas": draw(lg(8, 300)), "yscale": [draw(lg(1e-10, 1e-3)) for _ in range(8)]}
+
+
 def strategy(tier):
-    return _case()
+    return st.one_of(_case(), _case(), _case(), _explicit_case())
 
 
 def fixed_cases(tier):
@@ -127,7 +154,7 @@ def build(case, d):
     from naunet.network import Network
     from naunet.chemistrydata import update_binding_energy, update_photon_yield
 
-    leeds = case["model"].startswith("hh93")
+    leeds = case["model"].startswith("hh93") or case.get("fmt") == "leeds"
     fmt = "leeds" if leeds else "uclchem"
     pre = "G" if leeds else "#"
     e = "e-" if leeds else "E-"
@@ -241,6 +268,19 @@ def reference(case, lr, pre, C, P, y_of, eb_of, yield_of):
     densites = garea * sites
     mantabund = mant / P["nH"]
     zr = P["zeta"] / ZISM
+    if lr["fmt"] == "leeds":
+        # Leeds-format lines under the RR07X model: accretion without UCLCHEM's forced window; thermal desorption at the
+        # *dust* temperature, which the Leeds class carries as its own parameter
+        if code == 7:
+            A = mass_of(name(re1).rstrip("+-"))
+            return 4.57e4 * a * gxsec * P["opt"]["frz"] * math.sqrt(P["Tgas"] / A)
+        if code == 8:
+            x = name(re1)
+            eb, A = eb_of(x), mass_of(x)
+            if mantabund <= 1e-30:
+                return 0.0
+            return P["opt"]["thd"] * math.sqrt(2.0 * sites * kerg * eb / (pi * pi * amu * A)) * 2.0 * densites * math.exp(-eb / P["Tdust"])
+        raise KeyError(code)
     if code == "FREEZE":
         T = P["Tgas"]
         if not (T < 30.0):
@@ -295,9 +335,81 @@ def params_for(case, proj):
     return out
 
 
+def _explicit_network(case, how):
+    """how = 'objects': Species objects with their own values; 'table': plain names + the user tables; 'default': names only."""
+    from naunet.network import Network
+    from naunet.species import Species
+    from naunet.reactions.reaction import Reaction
+    from naunet.reactiontype import ReactionType
+    from naunet.chemistrydata import update_binding_energy, update_photon_yield
+
+    N.reset_naunet_state()
+    if how == "table":
+        update_binding_energy({"#" + x: v for x, v in case["eb"].items()})
+        update_photon_yield({"#" + x: v for x, v in case["yield"].items()})
+
+    def ice(x):
+        if how != "objects":
+            return "#" + x
+        sp = Species("#" + x)
+        sp.binding_energy = case["eb"][x]
+        if x in case["yield"]:
+            sp.photon_yield = case["yield"][x]
+        return sp
+
+    reacs = [Reaction(["H", "H"], ["H2"], -1.0, -1.0, 1.0e-17, 0.0, 0.0, ReactionType.GAS_TWOBODY, 1)]
+    for k, rc in enumerate(case["reactions"]):
+        if rc["t"] == 300:
+            reacs.append(Reaction([ice(rc["x"]), ice(rc["x2"]) if rc["x2"] != "H" or how != "objects" else Species("#H")], ["#H2O"], -1.0, -1.0, rc["a"], 0.0, 0.0, ReactionType(300), k + 2))
+        else:
+            reacs.append(Reaction([ice(rc["x"])], [rc["x"]], -1.0, -1.0, 1.0, 0.0, 960.0, ReactionType(rc["t"]), k + 2))
+    return Network(reactions=reacs, grain_model=case["model"])
+
+
+def check_explicit(case):
+    """The reacting species' *own* binding energy / yield (explicit value on the Species object) must reach the rates:
+    the rendering equals the rendering in which the same numbers come from the user tables (metamorphic)."""
+    failures = []
+    labels = ["explicit-species-values", f"model-{case['model']}"]
+    vals = {}
+    with N.Scratch() as d:
+        for how in ("default", "table", "objects"):
+            try:
+                net = _explicit_network(case, how)
+                proj = R.render_rates(net, d / how, backends=(("cvode", "dense", "cpu"),))["dense"]
+            except Exception as e:
+                if how == "default":
+                    # this (model, process) pair is not available to reactions built through the API (it needs symbols
+                    # only a file-format class registers, or is unimplemented): outside the domain of this clause
+                    return CaseResult(discarded=True)
+                failures.append((f"grain/explicit-route-raises/{type(e).__name__}", f"{how}: {type(e).__name__}: {e}"))
+                return CaseResult(failures, True, labels, sample={"model": case["model"]})
+            fields = R.data_fields(proj)
+            P = {f: (case["Tgas"] if f == "Tgas" else 10.0 if f == "Tdust" else (dflt if dflt is not None else 1.0)) for f, dflt in fields.items()}
+            idx = proj.idx_table()
+            yv = [0.0] * proj.neq
+            for i, (al, slot) in enumerate(sorted(idx.items())):
+                yv[slot] = case["yscale"][i % len(case["yscale"])]
+            k, _ = R.eval_rates(proj, P, yvals=yv)
+            vals[how] = (list(k), R.constants_of(proj))
+    ko, kt, kd = vals["objects"][0], vals["table"][0], vals["default"][0]
+    for i, rc in enumerate(case["reactions"]):
+        if not R.close(ko[i + 1], kt[i + 1], 1e-12):
+            same_as_default = R.close(ko[i + 1], kd[i + 1], 1e-12)
+            failures.append((f"grain/explicit-species-value-ignored/{case['model']}:{rc['t']}" if same_as_default else f"grain/explicit-vs-table/{case['model']}:{rc['t']}",
+                             f"type {rc['t']} of #{rc['x']}: k = {ko[i + 1]!r} with the species' own E_b={case['eb'][rc['x']]} / yield={case['yield'].get(rc['x'])} set on the Species object, {kt[i + 1]!r} with the same numbers in the user tables, {kd[i + 1]!r} with the RATE12 defaults"))
+            break
+    differs = any(not R.close(a, b, 1e-12) for a, b in zip(kt, kd))
+    if differs:
+        labels.append("values-change-the-rates")
+    return CaseResult(failures, differs, labels, sample={"model": case["model"], "reactions": [(rc["t"], rc["x"]) for rc in case["reactions"]], "eb": case["eb"]})
+
+
 def check_case(case, tier):
     from naunet.species import Species
 
+    if case.get("kind") == "explicit":
+        return check_explicit(case)
     N.reset_naunet_state()
     failures = []
     model = case["model"]
